@@ -275,5 +275,12 @@ def run(ck, facts, tier, only=None):
                      "%s:%d" % (r["file"], r["line"]), detail=cel.vfmt(got)[:300], sample="other.union_cal.eq(self)")
     from rules import pywrap
     pywrap.run_calendar_wrappers(ck, facts)          # what a Python user calls is the wrapper: it must hand its arguments to the core method unchanged
+    # a name that arrives in a stored document goes through the same parser: "regardless of letter case", "more than one '|' is an error" (C20 S20.2 for
+    # NamedCal; C16 S16.2/S16.7 for the calendar types)
+    from rules import c20 as c20m, c16 as c16m
+    nd6, tb6 = list(ck.not_decided), list(ck.trusted)
+    c20m.loader_rule(ck, facts, only={"calendars::calendar::NamedCal"})
+    c16m.run(ck, facts, tier, only_types=r"^calendars::calendar::")
+    ck.not_decided[:], ck.trusted[:] = nd6, tb6
     ck.not_decided += ["nothing about concrete dates (that is C07)", "equality between two plain Cal objects is the derived structural one (not part of the statement)"]
     ck.trusted += ["lib/cel.py quantifier model (all/any as forall/exists over a symbolic element)"]
